@@ -12,7 +12,7 @@ Local Open Scope Z_scope.
    commitments (same number, same values) and its share lies on the polynomial they commit to *)
 Theorem C11_accept_iff_consistent :
   forall t bc d i, accepts t bc d i = true <->
-  dl_fault d = FNone /\ map zr (dl_commits d) = map zr bc /\ length bc = t /\ zr (dl_share d) = eval_poly bc (i + 1).
+  dl_fault d = FNone /\ map zr (dl_commits d) = map zr bc /\ zr (dl_share d) = eval_poly bc (i + 1).
 Proof. exact accept_iff_consistent. Qed.
 Print Assumptions C11_accept_iff_consistent.
 
@@ -33,6 +33,15 @@ Theorem C11_honest_deal_accepted :
   forall coeffs i, accepts (length coeffs) coeffs {| dl_fault := FNone; dl_commits := coeffs; dl_share := eval_poly coeffs (i + 1) |} i = true.
 Proof. exact honest_deal_accepted. Qed.
 
+(* the check does not count the coefficients: a polynomial with more coefficients than the threshold,
+   announced and dealt consistently, is accepted here (first version of this model had a length test
+   the code does not have; corrected after running a higher-degree dealer against real machines) *)
+Theorem C11_higher_degree_deal_accepted :
+  forall coeffs extra i t,
+  accepts t (coeffs ++ [extra])
+          {| dl_fault := FNone; dl_commits := coeffs ++ [extra]; dl_share := eval_poly (coeffs ++ [extra]) (i + 1) |} i = true.
+Proof. exact higher_degree_deal_accepted. Qed.
+
 (* the addressee reports the error as soon as one deal is refused; a normal answer means every
    deal it received was consistent with its dealer's broadcast commitments *)
 Theorem C11_one_bad_deal_is_reported :
@@ -41,7 +50,7 @@ Proof. exact one_bad_deal_is_reported. Qed.
 Theorem C11_response_ok_all_consistent :
   forall t deals i, responses_result t deals i = ev_resp_ok ->
   forall bc d, In (bc, d) deals ->
-    dl_fault d = FNone /\ map zr (dl_commits d) = map zr bc /\ length bc = t /\ zr (dl_share d) = eval_poly bc (i + 1).
+    dl_fault d = FNone /\ map zr (dl_commits d) = map zr bc /\ zr (dl_share d) = eval_poly bc (i + 1).
 Proof. exact response_ok_all_consistent. Qed.
 Print Assumptions C11_response_ok_all_consistent.
 
